@@ -220,6 +220,14 @@ func (v *VerifVerify) Counters() (votes, quorum int) {
 	return v.f.votes, v.f.quorumSize
 }
 
+// Resolved reports whether the future was answered at once (single voter) or has been
+// handed to the leader loop by vote() (quorum reached, or denied).
+func (v *VerifVerify) Resolved() bool {
+	v.f.voteLock.Lock()
+	defer v.f.voteLock.Unlock()
+	return v.f.quorumSize > 0 && v.f.notifyCh == nil
+}
+
 // VerifVerifyRegistered lists the peers whose replication state holds the future.
 func (r *Raft) VerifVerifyRegistered(v *VerifVerify) []ServerID {
 	var out []ServerID
